@@ -46,7 +46,9 @@ Inductive lent :=
 | LEff (e : nat)
 | LMemo (m : nat)
 | LUse (ty : nat) (r : option Z)
-| LRead (m : nat) (ok : bool).
+| LRead (m : nat) (ok : bool)
+| LRendInit (o : nat)          (* first, synchronous run of a RenderEffect, under owner o *)
+| LImm (i : nat).              (* run of an ImmediateEffect *)
 
 Record core := mkCore {
   owners : list owner;
@@ -241,11 +243,15 @@ Inductive stmt :=
 | SProvide (ty : nat) (v : Z) | SUse (ty : nat)
 | SChild (b : list stmt)       (* let o = Owner::new(); o.with(|| b) — the handle is retained *)
 | SEffect (b : list stmt)      (* Effect::new(move |_| { trigger.track(); b }) *)
-| SMemo (b : list stmt).       (* Memo::new(move |_| { trigger.track(); b; 0 }) — runs when read *)
+| SMemo (b : list stmt)        (* Memo::new(move |_| { trigger.track(); b; 0 }) — runs when read *)
+| SRender (b : list stmt)      (* RenderEffect::new: runs b at once under its own owner, re-runs
+                                  from its task; not an arena item: lives as long as its handle *)
+| SImm (b : list stmt).        (* ImmediateEffect::new: runs b at once and on every notification,
+                                  synchronously; owner held by the effect, i.e. by its handle *)
 
 Fixpoint size_stmt (s : stmt) : nat :=
   match s with
-  | SChild b | SEffect b | SMemo b =>
+  | SChild b | SEffect b | SMemo b | SRender b | SImm b =>
       S ((fix go (l : list stmt) : nat := match l with [] => 0 | x :: r => size_stmt x + go r end) b)
   | _ => 1
   end.
@@ -253,6 +259,8 @@ Definition size_body (b : list stmt) : nat := fold_right (fun s n => size_stmt s
 
 Record eff := mkEff {
   e_owner : nat; e_key : key; e_body : list stmt;
+  e_render : bool;   (* a RenderEffect: no arena entry, the handle holds the Sender *)
+  e_held : bool;     (* RenderEffect: the harness still holds the handle *)
   e_set : bool;      (* channel flag *)
   e_dirty : bool;    (* EffectInner.dirty *)
   e_first : bool;    (* first_run; the effect subscribes to its trigger when it runs *)
@@ -263,7 +271,9 @@ Record memo := mkMemo {
   m_dirty : bool; m_sub : bool
 }.
 (** who holds the strong reference to an owner *)
-Inductive holder := HUser (held : bool) | HEffect (e : nat) | HMemo (m : nat).
+Inductive holder := HUser (held : bool) | HEffect (e : nat) | HMemo (m : nat) | HImm (i : nat) | HRender.
+
+Record imm := mkImm { i_owner : nat; i_body : list stmt; i_held : bool }.
 
 Record bstate := mkB {
   b_core : core;
@@ -271,38 +281,57 @@ Record bstate := mkB {
   memos : list memo;
   handles : list key;                       (* retained signal / stored-value handles *)
   holders : list (holder * list stmt);      (* per owner: holder and the scope's body *)
-  allkeys : list key                        (* every arena key handed out, in order *)
+  allkeys : list key;                       (* every arena key handed out, in order *)
+  imms : list imm
 }.
 
 Definition set_core (s : bstate) (c : core) : bstate :=
-  mkB c (effs s) (memos s) (handles s) (holders s) (allkeys s).
+  mkB c (effs s) (memos s) (handles s) (holders s) (allkeys s) (imms s).
 Definition blog (s : bstate) (l : list lent) : bstate := set_core s (add_log (b_core s) l).
 
 Fixpoint exec_stmt (cur : nat) (st : stmt) (s : bstate) : bstate :=
   match st with
   | SNewSig | SNewStored =>
       let '(k, c) := alloc cur (IVal (length (handles s))) (b_core s) in
-      mkB c (effs s) (memos s) (handles s ++ [k]) (holders s) (allkeys s ++ [k])
+      mkB c (effs s) (memos s) (handles s ++ [k]) (holders s) (allkeys s ++ [k]) (imms s)
   | SOnCleanup => set_core s (reg_cleanup cur (b_core s))
   | SProvide ty v => set_core s (provide cur ty v (b_core s))
   | SUse ty => blog s [LUse ty (use_ctx (b_core s) cur ty)]
   | SChild b =>
       let '(o, c) := new_owner (Some cur) (b_core s) in
-      let s1 := mkB c (effs s) (memos s) (handles s) (holders s ++ [(HUser true, b)]) (allkeys s) in
+      let s1 := mkB c (effs s) (memos s) (handles s) (holders s ++ [(HUser true, b)]) (allkeys s) (imms s) in
       (fix go (l : list stmt) (s : bstate) : bstate :=
          match l with [] => s | x :: r => go r (exec_stmt o x s) end) b s1
   | SEffect b =>
       let e := length (effs s) in
       let '(o, c) := new_owner (Some cur) (b_core s) in
       let '(k, c) := alloc cur (IEffect e) c in
-      mkB c (effs s ++ [mkEff o k b true true true true false]) (memos s) (handles s)
-          (holders s ++ [(HEffect e, b)]) (allkeys s ++ [k])
+      mkB c (effs s ++ [mkEff o k b false true true true true true false]) (memos s) (handles s)
+          (holders s ++ [(HEffect e, b)]) (allkeys s ++ [k]) (imms s)
   | SMemo b =>
       let m := length (memos s) in
       let '(o, c) := new_owner (Some cur) (b_core s) in
       let '(k, c) := alloc cur (IMemo m o) c in
       mkB c (effs s) (memos s ++ [mkMemo o k b true false]) (handles s)
-          (holders s ++ [(HMemo m, b)]) (allkeys s ++ [k])
+          (holders s ++ [(HMemo m, b)]) (allkeys s ++ [k]) (imms s)
+  | SRender b =>
+      (* Owner::new(); first run at once under owner.with; then the task is spawned: effects
+         created by the body have spawned their tasks before, so this one is numbered after them *)
+      let '(o, c) := new_owner (Some cur) (b_core s) in
+      let s1 := blog (mkB c (effs s) (memos s) (handles s) (holders s ++ [(HRender, b)]) (allkeys s) (imms s))
+                     [LRendInit o] in
+      let s2 := (fix go (l : list stmt) (s : bstate) : bstate :=
+                   match l with [] => s | x :: r => go r (exec_stmt o x s) end) b s1 in
+      mkB (b_core s2) (effs s2 ++ [mkEff o (0, 0) b true true false false false true false]) (memos s2)
+          (handles s2) (holders s2) (allkeys s2) (imms s2)
+  | SImm b =>
+      (* EffectInner::new (Owner::new()), then update_if_necessary: Dirty, so it runs at once *)
+      let i := length (imms s) in
+      let '(o, c) := new_owner (Some cur) (b_core s) in
+      let s1 := mkB (cleanup o c) (effs s) (memos s) (handles s) (holders s ++ [(HImm i, b)]) (allkeys s)
+                    (imms s ++ [mkImm o b true]) in
+      (fix go (l : list stmt) (s : bstate) : bstate :=
+         match l with [] => s | x :: r => go r (exec_stmt o x s) end) b (blog s1 [LImm i])
   end.
 Definition exec_body (cur : nat) (b : list stmt) (s : bstate) : bstate :=
   fold_left (fun s x => exec_stmt cur x s) b s.
@@ -310,7 +339,7 @@ Definition exec_body (cur : nat) (b : list stmt) (s : bstate) : bstate :=
 (** the root scope: [Owner::new()] with no current owner, body run under it *)
 Definition start (b : list stmt) : bstate :=
   let '(o, c) := new_owner None core0 in
-  exec_body o b (mkB c [] [] [] [(HUser true, b)] []).
+  exec_body o b (mkB c [] [] [] [(HUser true, b)] [] []).
 
 Inductive op :=
 | Rerun (o : nat) | Cleanup (o : nat) | DropOwner (o : nat)
@@ -318,7 +347,8 @@ Inductive op :=
 | Poll (e : nat) | RunAll (picks : list nat)
 | Alloc (o : nat) (n : nat) | Dispose (h : nat)
 | Pause (o : nat) | Resume (o : nat) | UseAt (o : nat) (ty : nat)
-| DisposeMemo (m : nat) | DisposeEffect (e : nat).
+| DisposeMemo (m : nat) | DisposeEffect (e : nat)
+| NotifyImm (i : nat) | DropImm (i : nat).
 
 (** the harness still holds the handle of user scope [o] *)
 Definition user_body (s : bstate) (o : nat) : option (list stmt) :=
@@ -327,14 +357,17 @@ Definition user_body (s : bstate) (o : nat) : option (list stmt) :=
   | _ => None
   end.
 
+(** the effect's Sender still exists: its arena entry (Effect) or its handle (RenderEffect) *)
+Definition eff_alive (s : bstate) (e : eff) : bool :=
+  if e_render e then e_held e else contains (b_core s) (e_key e).
 Definition eff_ready (s : bstate) (e : eff) : bool :=
-  negb (e_done e) && (e_woken e || negb (contains (b_core s) (e_key e))).
+  negb (e_done e) && (e_woken e || negb (eff_alive s e)).
 Definition ready (s : bstate) : list nat := idx_from (eff_ready s) 0 (effs s).
 
 Definition set_eff (s : bstate) (i : nat) (f : eff -> eff) : bstate :=
-  mkB (b_core s) (upd i f (effs s)) (memos s) (handles s) (holders s) (allkeys s).
+  mkB (b_core s) (upd i f (effs s)) (memos s) (handles s) (holders s) (allkeys s) (imms s).
 Definition set_memo (s : bstate) (i : nat) (f : memo -> memo) : bstate :=
-  mkB (b_core s) (effs s) (upd i f (memos s)) (handles s) (holders s) (allkeys s).
+  mkB (b_core s) (effs s) (upd i f (memos s)) (handles s) (holders s) (allkeys s) (imms s).
 
 (** one poll of the task spawned by [Effect::new]:
       while rx.next().await.is_some() {
@@ -345,24 +378,24 @@ Definition poll (i : nat) (s : bstate) : bstate :=
   | None => s
   | Some e =>
       if negb (eff_ready s e) then s else
-      if negb (contains (b_core s) (e_key e)) then
+      if negb (eff_alive s e) then
         (* the Sender is gone: the stream ends, the task returns and drops the effect's Owner *)
-        let s1 := set_eff s i (fun e => mkEff (e_owner e) (e_key e) (e_body e) (e_set e) (e_dirty e)
+        let s1 := set_eff s i (fun e => mkEff (e_owner e) (e_key e) (e_body e) (e_render e) (e_held e) (e_set e) (e_dirty e)
                                               (e_first e) false true) in
         set_core s1 (drop_owner (e_owner e) (b_core s1))
       else if negb (e_set e) then
-        set_eff s i (fun e => mkEff (e_owner e) (e_key e) (e_body e) false (e_dirty e) (e_first e)
+        set_eff s i (fun e => mkEff (e_owner e) (e_key e) (e_body e) (e_render e) (e_held e) false (e_dirty e) (e_first e)
                                     false (e_done e))
       else if paused (b_core s) (e_owner e) then
-        set_eff s i (fun e => mkEff (e_owner e) (e_key e) (e_body e) false (e_dirty e) (e_first e)
+        set_eff s i (fun e => mkEff (e_owner e) (e_key e) (e_body e) (e_render e) (e_held e) false (e_dirty e) (e_first e)
                                     false (e_done e))
       else if e_dirty e || e_first e then
-        let s1 := set_eff s i (fun e => mkEff (e_owner e) (e_key e) (e_body e) false false false
+        let s1 := set_eff s i (fun e => mkEff (e_owner e) (e_key e) (e_body e) (e_render e) (e_held e) false false false
                                               false (e_done e)) in
         let s2 := set_core s1 (cleanup (e_owner e) (b_core s1)) in
         exec_body (e_owner e) (e_body e) (blog s2 [LEff i])
       else
-        set_eff s i (fun e => mkEff (e_owner e) (e_key e) (e_body e) false false (e_first e)
+        set_eff s i (fun e => mkEff (e_owner e) (e_key e) (e_body e) (e_render e) (e_held e) false false (e_first e)
                                     false (e_done e))
   end.
 
@@ -396,7 +429,7 @@ Definition step (s : bstate) (x : op) : bstate :=
       match user_body s o with
       | Some b =>
           let s1 := mkB (b_core s) (effs s) (memos s) (handles s)
-                        (upd o (fun _ => (HUser false, b)) (holders s)) (allkeys s) in
+                        (upd o (fun _ => (HUser false, b)) (holders s)) (allkeys s) (imms s) in
           set_core s1 (drop_owner o (b_core s1))
       | None => s
       end
@@ -405,8 +438,8 @@ Definition step (s : bstate) (x : op) : bstate :=
       | Some e =>
           (* the trigger's subscriber set holds a Weak to the EffectInner, and only once the
              effect has run (and tracked the trigger) *)
-          if negb (e_first e) && contains (b_core s) (e_key e)
-          then set_eff s i (fun e => mkEff (e_owner e) (e_key e) (e_body e) true true (e_first e)
+          if negb (e_first e) && eff_alive s e
+          then set_eff s i (fun e => mkEff (e_owner e) (e_key e) (e_body e) (e_render e) (e_held e) true true (e_first e)
                                            (negb (e_done e)) (e_done e))
           else s
       | None => s
@@ -465,11 +498,40 @@ Definition step (s : bstate) (x : op) : bstate :=
       end
   | DisposeEffect i =>
       match nth_error (effs s) i with
-      | Some e => set_core s (dispose (e_key e) (b_core s))
+      | Some e =>
+          if e_render e
+          then (* dropping the RenderEffect handle drops the Sender *)
+               set_eff s i (fun e => mkEff (e_owner e) (e_key e) (e_body e) (e_render e) false (e_set e)
+                                           (e_dirty e) (e_first e) (e_woken e) (e_done e))
+          else set_core s (dispose (e_key e) (b_core s))
+      | None => s
+      end
+  | NotifyImm i =>
+      match nth_error (imms s) i with
+      | Some m =>
+          (* mark_dirty -> update_if_necessary: runs now, unless its owner is paused *)
+          if i_held m && negb (paused (b_core s) (i_owner m))
+          then exec_body (i_owner m) (i_body m)
+                 (blog (set_core s (cleanup (i_owner m) (b_core s))) [LImm i])
+          else s
+      | None => s
+      end
+  | DropImm i =>
+      match nth_error (imms s) i with
+      | Some m =>
+          if i_held m
+          then let s1 := mkB (b_core s) (effs s) (memos s) (handles s) (holders s) (allkeys s)
+                             (upd i (fun m => mkImm (i_owner m) (i_body m) false) (imms s)) in
+               set_core s1 (drop_owner (i_owner m) (b_core s1))
+          else s
       | None => s
       end
   end.
 
 (** end of a case: the harness drops every scope handle it still holds, then lets the tasks end *)
 Definition drop_all (s : bstate) : bstate :=
-  fold_left (fun s o => step s (DropOwner o)) (seq 0 (length (holders s))) s.
+  let s := fold_left (fun s o => step s (DropOwner o)) (seq 0 (length (holders s))) s in
+  let s := fold_left (fun s e => match nth_error (effs s) e with
+                                 | Some ef => if e_render ef then step s (DisposeEffect e) else s
+                                 | None => s end) (seq 0 (length (effs s))) s in
+  fold_left (fun s i => step s (DropImm i)) (seq 0 (length (imms s))) s.
